@@ -10,7 +10,7 @@ Close Scope N_scope.
 Open Scope nat_scope.
 
 Notation rwb := (swb token).
-Notation rwf_wb := (wf_wb token tok_class).
+Notation rwf_wb := (wf_wb token tok_class t_text tok_num).
 Notation rflat_wbs := (flat_wbs token).
 Notation rerase_wb := (erase_wb token tok_class t_text tok_num ty_name).
 
@@ -94,11 +94,11 @@ Proof.
     pose proof (Forall_inv Hbl) as (Hbw & Hb). pose proof (Forall_inv_tail Hbl) as Hbl'.
     assert (E2 : StParser.skip token tok_class (rflat_wbs (WB token bw b :: bl') ++ tail) = rflat_wbs (WB token [] b :: bl') ++ tail).
     { unfold flat_wbs. cbn [map List.concat flat_wb app]. rewrite <- !app_assoc.
-      rewrite (skip_app_triv token tok_class bw _ Hbw). apply (flat_bk_skip token tok_class b _ Hb). }
+      rewrite (skip_app_triv token tok_class bw _ Hbw). apply (flat_bk_skip token tok_class t_text tok_num b _ Hb). }
     change (st_skip (rflat_wbs (WB token bw b :: bl') ++ tail)) with (StParser.skip token tok_class (rflat_wbs (WB token bw b :: bl') ++ tail)).
     rewrite E2.
     assert (Hbl0 : Forall rwf_wb (WB token [] b :: bl')) by (constructor; [split; [constructor | exact Hb] | exact Hbl']).
-    rewrite (in_scope_scoped _ _ (scoped_wbs token tok_class _ Hbl0)).
+    rewrite (in_scope_scoped _ _ (scoped_wbs token tok_class t_text tok_num _ Hbl0)).
     + rewrite (blocks_spelled token tok_class t_text tok_num ty_name _ Hbl0 [] tail _ Hnb).
       * cbn [app]. rewrite Hbody by lia. exact Hend.
       * pose proof (size_wbs_len token (WB token [] b :: bl')) as Bw0.
